@@ -21,6 +21,7 @@ import (
 	"encoding/json"
 	"flag"
 	"fmt"
+	"github.com/superfly/ltx"
 	"io"
 	"log/slog"
 	"os"
@@ -103,6 +104,7 @@ type harness struct {
 
 	unregInFlight []atomic.Int32 // per path: UnregisterDB calls in progress (marker only)
 	lastRestore   []string       // per path: part A's restored file when it equalled the source (final goroutine only)
+	lastTXID      []ltx.TXID     // per path: the TXID part A restored to (the replica's newest L0 file at that moment)
 
 	started  atomic.Int64
 	finished atomic.Int64
@@ -564,6 +566,7 @@ func (h *harness) run(replay [][]string) error {
 	h.lvlMu = make([][3]sync.Mutex, o.DBs)
 	h.unregInFlight = make([]atomic.Int32, o.DBs)
 	h.lastRestore = make([]string, o.DBs)
+	h.lastTXID = make([]ltx.TXID, o.DBs)
 
 	// 2. one store
 	retention := o.Retention == "on" || (o.Retention == "auto" && o.Seed%3 == 0)
